@@ -109,7 +109,16 @@ func ExponentialBackoff(backoff time.Duration, factor, jitter float64) Backoff {
 
 		// do exponential backoff with jitter
 		temp := float64(backoff) * math.Pow(factor, float64(attempt))
-		return time.Duration(temp*(1-jitter)) + time.Duration(rand.Int64N(int64(2*jitter*temp)))
+		if temp >= float64(math.MaxInt64)/2 {
+			// saturate instead of overflowing; the policy clamps the result
+			return math.MaxInt64
+		}
+		wait := time.Duration(temp * (1 - jitter))
+		if n := int64(2 * jitter * temp); n > 0 {
+			// rand.Int64N panics for a non-positive argument (jitter == 0)
+			wait += time.Duration(rand.Int64N(n))
+		}
+		return wait
 	}
 }
 
